@@ -81,6 +81,7 @@ var ErrClosed = errors.New("client is closed")
 // Close closes underlying connection and frees all resources,
 // rendering Client to unusable state.
 func (c *Client) Close() error {
+	verifPoint("close:enter")
 	c.mux.Lock()
 	defer c.mux.Unlock()
 
